@@ -129,11 +129,11 @@ fn node_kind(n: &ParserNode) -> &'static str {
     }
 }
 
-fn reg_map(m: &riscv_analysis::cfg::AvailableValueMap<Register>) -> BTreeMap<u8, Val> {
+pub fn reg_map(m: &riscv_analysis::cfg::AvailableValueMap<Register>) -> BTreeMap<u8, Val> {
     m.iter().map(|(r, v)| (r.to_num(), Val::of(v))).collect()
 }
 
-fn mem_map(m: &riscv_analysis::cfg::AvailableValueMap<MemoryLocation>) -> BTreeMap<Loc, Val> {
+pub fn mem_map(m: &riscv_analysis::cfg::AvailableValueMap<MemoryLocation>) -> BTreeMap<Loc, Val> {
     m.iter()
         .map(|(l, v)| {
             let loc = match l {
